@@ -12,7 +12,7 @@ CHECKS = {
   text="bounded model checking of every sequence of <=3 (thorough 4) metric operations from the empty metric with symbolic label bytes and expiries, against an association-list oracle; slice/index agreement, datum identity, order, expiry and EmitLabelSets output asserted after every step",
   note="bounds: arity 0..2, labels 0..1 bytes (2 thorough), 2-4 operations, value types Int/String/Buckets (all four thorough); EmitLabelSets runs under the engine's deterministic scheduler"),
  "C10": dict(level="model_checking", ref="DESIGN.md 4 C10",
-  text="one Store.Gc pass from an arbitrary metric state: 0..3 (thorough 5) data with fully symbolic int64 timestamps and expiries, symbolic limit and clock; the solver shows the surviving set is always explainable as oldest-first limit enforcement followed by the exact expiry rule",
+  text="one Store.Gc pass from an arbitrary metric state: 0..3 (thorough 4) data with fully symbolic int64 timestamps and expiries, symbolic limit and clock; the solver shows the surviving set is always explainable as oldest-first limit enforcement followed by the exact expiry rule",
   note="time.Time/Now/Sub/Before/Unix are engine models (exact nanosecond arithmetic, saturating Sub); timestamps after 1970; one metric over its limit per store"),
  "C15": dict(level="model_checking", ref="DESIGN.md 4 C15",
   text="bounded model checking of LineReader.ReadAndSend/send/Finish: every byte string up to 4 (thorough 6) bytes, every chunking by an adversarial io.Reader, every buffer size 1..3 (thorough 6), compared line by line with a split specification; also log_lines_total (C25a)",
